@@ -116,9 +116,47 @@ def run(check, prog):
     # for one polarisation refuses every other (rule shared with C05)
     from . import c05 as _c05p
     _c05p.pin_exact(check, prog)
+    nan_propagates(check, prog)
 
 
 # ----------------------------------------------------------------------
+def nan_propagates(check, prog):
+    """F1c: a field that could not be computed is not a dark pixel.  The hologram
+    and the intensity are sums of squared moduli over the transverse components of
+    a labelled array; xarray's reductions skip NaN by default, so NaN + NaN is 0:
+    where the scattered field is NaN (a point the compiled Bessel routine cannot
+    reach, r = inf, coefficients that overflowed) calc_intensity would report 0 and
+    calc_holo 0 instead of anything near 1.  Rule: every labelled reduction on the
+    path from the field to the result names skipna=False (a NumPy reduction of the
+    bare values keeps NaN by itself)."""
+    I = 'holopy.scattering.interface.'
+    REDUCE = ('sum', 'mean', 'prod', 'max', 'min', 'std', 'var')
+    n = 0
+    for q in (I + 'calc_intensity', I + 'scattered_field_to_hologram'):
+        fd = prog.func(q)
+        loc = prog.loc(q, fd)
+        it = Interp(prog, max_depth=0)
+        res = it.analyze(q)
+        reds = [x for o in res.returns for x in subterms(o.value)
+                if x[0] == 'call' and isinstance(x[1], tuple) and x[1][0] == 'attr'
+                and x[1][2] in REDUCE]
+        for x in reds:
+            n += 1
+            kws = dict(x[3])
+            recv = x[1][1]
+            bare = recv[0] == 'attr' and recv[2] in ('values', 'data')
+            ok = bare or kws.get('skipna') == FALSE
+            check.require(ok, 'F1-nan-propagates', '%s .%s()' % (q.rpartition('.')[2],
+                                                               x[1][2]),
+                          'the reduction over the field components does not skip NaN',
+                          loc, fail_detail='%s: xarray skips NaN by default -- with a NaN '
+                          'scattered field (detector_points(theta=, phi=) at the default '
+                          'r = inf; a point beyond the Bessel routine\'s range) '
+                          'calc_intensity returns 0 and calc_holo 0, not NaN' % (
+                              show(x)[:100]))
+    check.floor('F1c labelled reductions between field and result', n, 2)
+
+
 def f1_f2(check, prog, canon):
     it, res = analyze(prog, 'calc_holo')
     fd = prog.func(I + 'calc_holo')
